@@ -34,7 +34,7 @@ Lemma dsobs_eqb_eq a b : dsobs_eqb a b = true <-> a = b.
 Proof.
   destruct a, b. unfold dsobs_eqb. cbn.
   rewrite !andb_true_iff, !Z.eqb_eq, !eqb_true_iff, settings_eqb_eq, (list_eqb_eq meta_eqb meta_eqb_eq).
-  split; [intros [[[[[[-> ->] ->] ->] ->] ->] ->]; reflexivity | intros [= -> -> -> -> -> -> ->]; repeat split].
+  split; [intros [[[[[[[-> ->] ->] ->] ->] ->] ->] ->]; reflexivity | intros [= -> -> -> -> -> -> -> ->]; repeat split].
 Qed.
 
 Lemma snapshot_eqb_eq a b : snapshot_eqb a b = true <-> a = b.
@@ -51,6 +51,7 @@ Fixpoint model_spec_run (fl : cflags) (k : cat) (ops : list sop) : bool :=
   | [] => true
   | SOp o :: ops' => model_spec_run fl (apply_cop fl k o) ops'
   | SPair n ents b _ _ :: ops' => model_spec_run fl (do_pair fl k n ents b) ops'
+  | SPairC n ents b _ _ :: ops' => model_spec_run fl (do_pairc fl k n ents b) ops'
   | SDetails names _ :: ops' => snap_spec (predict k names) && model_spec_run fl k ops'
   end.
 
@@ -59,10 +60,11 @@ Lemma agree_run_transfers fl : forall ops k,
   forallb (fun o => match o with SDetails _ obs => snap_spec obs | _ => true end) ops = model_spec_run fl k ops.
 Proof.
   induction ops as [|o ops IH]; intros k H; [reflexivity|].
-  destruct o as [o|n ents b r bl|names obs]; cbn [agree_run forallb model_spec_run] in *.
+  destruct o as [o|n ents b r bl|n ents b r bl|names obs]; cbn [agree_run forallb model_spec_run] in *.
   - now apply IH.
   - destruct (pair_flags fl k n ents b) as [r' bl']. rewrite !andb_true_iff in H. destruct H as [_ H].
     cbn [andb]. now apply IH.
+  - rewrite !andb_true_iff in H. destruct H as [_ H]. cbn [andb]. now apply IH.
   - rewrite andb_true_iff in H. destruct H as [He H]. apply snapshot_eqb_eq in He. subst obs.
     f_equal. now apply IH.
 Qed.
